@@ -7,11 +7,13 @@ import json, os, re, shutil, subprocess, sys, time
 
 V = "/verif"
 prop, k = sys.argv[1], sys.argv[2]
+ROOT = os.environ.get("SEED_ROOT", "/tmp/seed")          # where the sub-agent's worktrees live
+OFFSET = int(os.environ.get("SEED_OFFSET", "0"))         # second round: change k is kept as <PROP>-<k+OFFSET>
 others = sys.argv[3:]
-src = f"/tmp/seed/{prop}/DEMO"
+src = f"{ROOT}/{prop}/DEMO"
 patch, demo = f"{src}/change{k}.diff", f"{src}/demo{k}.py"
-W = f"/tmp/seedverify-{prop}-{k}"
-out = {"property": prop, "origin": "independent sub-agent given only the property text and a scratch worktree", "k": int(k)}
+W = f"/tmp/seedverify-{prop}-{int(k) + OFFSET}"
+out = {"property": prop, "origin": os.environ.get("SEED_ORIGIN", "independent sub-agent given only the property text and a scratch worktree"), "k": int(k) + OFFSET}
 
 
 def sh(cmd, cwd=None, env=None, timeout=3600):
@@ -58,7 +60,7 @@ try:
         shutil.rmtree(outdir, ignore_errors=True)
         print(p, caught[p]["result"], caught[p]["violations"][:1])
     out["checks_quick"] = caught
-    d = f"{V}/seeded/{prop}-{k}"
+    d = f"{V}/seeded/{prop}-{int(k) + OFFSET}"
     os.makedirs(d, exist_ok=True)
     shutil.copy(patch, f"{d}/patch.diff")
     shutil.copy(demo, f"{d}/demo.py")
